@@ -187,3 +187,38 @@ pub fn with_binary(mut s: Spec, sel: &[u16]) -> Spec {
   s
 }
 
+
+
+/// The sequence of ingredients a tree feeds to a hasher, in the library's order, with the composite
+/// boundaries it does NOT mark left out: a ConcatSource contributes its tag and then its children back to
+/// back (no count, no terminator); a ReplaceSource its tag, its replacements in sorted order and then its
+/// inner source; a Box nothing of its own; a CachedSource hashes its inner source separately and
+/// contributes one value, so it is atomic here, like every leaf.
+pub fn hash_tokens(s: &Spec, built_how: bool) -> Vec<String> {
+  match s {
+    Spec::Concat { how, children } => {
+      let _ = (how, built_how);
+      let mut v = vec!["ConcatSource".to_string()];
+      for c in children {
+        v.extend(hash_tokens(c, built_how));
+      }
+      v
+    }
+    Spec::Replace { inner, repls } => {
+      let mut r: Vec<(usize, &crate::spec::Repl)> = repls.iter().enumerate().collect();
+      r.sort_by_key(|(i, p)| (p.start, p.end, p.enforce, *i));
+      let mut v = vec!["ReplaceSource".to_string()];
+      v.extend(r.into_iter().map(|(_, p)| format!("{p:?}")));
+      v.extend(hash_tokens(inner, built_how));
+      v
+    }
+    Spec::Boxed(inner) => hash_tokens(inner, built_how),
+    other => vec![serde_json::to_string(other).unwrap_or_default()],
+  }
+}
+
+/// Shape of known finding K2: two different trees whose hash input is the same sequence by construction
+/// (they differ only in where ConcatSource child lists end).
+pub fn k2_shape(x: &Spec, y: &Spec) -> bool {
+  x != y && hash_tokens(x, false) == hash_tokens(y, false)
+}
